@@ -676,6 +676,73 @@ def parse_flush(repo, path, sym):
     return r
 
 
+def native_init(repo, libdir, hcfg):
+    """{(algo, fam): {"ul": [words], "n": int, "lens": [...], "jobs": "0101.."} | {"error": text}}: what each family's
+    manager init function really leaves behind - harness/lanes_drv.c `I` lines: the init function of the freshly
+    built library EXECUTED on two different junk fills - so that how the C source writes it (literals, loops, a
+    table) does not matter.  The probe binary is cached next to the library."""
+    import hashlib
+    here = os.path.dirname(os.path.dirname(os.path.abspath(__file__)))
+    drv = os.path.join(here, "harness", "lanes_drv.c")
+    rows = []
+    for f in hcfg["fams"]:
+        subs = [x for x in f["mgr"] if "_mgr_submit_" in x]
+        fls = [x for x in f["mgr"] if "_mgr_flush_" in x]
+        if f["mgr"] and f.get("init") and len(subs) == 1 and len(fls) == 1:
+            rows.append("LF(%s, %s, %s, %s, %s, 0, 0, 0)" % (f["algo"], f["fam"], f["init"], subs[0], fls[0]))
+    txt = "\n".join(rows) + "\n"
+    with open(drv, "rb") as fh:
+        key = hashlib.sha256(fh.read() + txt.encode()).hexdigest()[:12]
+    inc = os.path.join(libdir, "lanes_init-%s.inc" % key)
+    exe = os.path.join(libdir, "bin-lanesinit-%s" % key)
+    if not os.path.exists(exe):
+        with open(inc, "w") as fh:
+            fh.write(txt)
+        tmp = exe + ".tmp%d" % os.getpid()
+        pr = subprocess.run(["gcc", "-O1", "-w", "-I", os.path.join(repo, "include"), "-I", repo, "-I", os.path.join(here, "harness"),
+                             '-DLANES_FAMS_INC="%s"' % inc, drv, os.path.join(libdir, "isa-l_crypto.a"), "-lpthread", "-o", tmp],
+                            stdout=subprocess.PIPE, stderr=subprocess.STDOUT, text=True, timeout=300)
+        if pr.returncode != 0:
+            return {"*": {"error": "init probe does not build: " + pr.stdout[-300:]}}
+        os.replace(tmp, exe)
+    fams = [(f["algo"], f["fam"]) for f in hcfg["fams"] if f["mgr"] and f.get("init")]
+    pr = subprocess.run([exe], input="".join("I i%d %s %s\n" % (k, a, b) for k, (a, b) in enumerate(fams)), stdout=subprocess.PIPE,
+                        stderr=subprocess.PIPE, text=True, timeout=120)
+    out = {}
+    for line in pr.stdout.split("\n"):
+        t = line.split(" | ")
+        h = t[0].split()
+        if len(h) < 3:
+            continue
+        dumps = []
+        for seg in t[1:]:
+            kv = dict(x.split("=", 1) for x in seg.split() if "=" in x)
+            if seg.startswith("init ") and "ul" in kv:
+                dumps.append({"ul": [int(x, 16) for x in kv["ul"].split(",")], "n": int(kv["n"], 16),
+                              "lens": [int(x, 16) for x in kv["lens"].split(",")], "jobs": kv.get("jobs", "")})
+        if len(dumps) != 2:
+            out[(h[1], h[2])] = {"error": "init probe gave no dump: " + line[:120]}
+        else:
+            out[(h[1], h[2])] = {"a": dumps[0], "b": dumps[1]}
+    return out
+
+
+def _init_native(nat, n, stack_bits, init):
+    """the init facts from the executed init function, for the n lanes / stack words the asm uses; whatever these
+    depend on must not depend on what the memory held before"""
+    a, b = nat["a"], nat["b"]
+    w = max(1, stack_bits // 64)
+    for what, x, y in (("unused_lanes", a["ul"][:w], b["ul"][:w]), ("num_lanes_inuse", a["n"], b["n"]),
+                       ("lens[]", a["lens"][:n], b["lens"][:n]), ("job_in_lane[]", a["jobs"][:n], b["jobs"][:n])):
+        if x != y:
+            raise LaneCfgError("%s leaves %s undefined (it depends on what the memory held before)" % (init, what))
+    if a["n"] != 0 or "1" in a["jobs"][:n]:
+        raise LaneCfgError("%s does not leave an empty manager (num_lanes_inuse=%d, job_in_lane=%s)" % (init, a["n"], a["jobs"][:n]))
+    if len(a["ul"]) < w or len(a["lens"]) < n:
+        raise LaneCfgError("%s: the manager has fewer unused_lanes words / lens[] elements than the asm uses" % init)
+    return {"unused": sum(v << (64 * i) for i, v in enumerate(a["ul"][:w])), "lens": a["lens"][:n]}
+
+
 def _init_facts(repo, algo, init):
     d = os.path.join(repo, algo + "_mb")
     body = None
@@ -716,6 +783,10 @@ def _init_facts(repo, algo, init):
 
 def config(repo, libdir, hcfg=None):
     hcfg = hcfg or hash_cfg.config(repo, libdir)
+    try:
+        inits = native_init(repo, libdir, hcfg)
+    except (OSError, subprocess.SubprocessError) as ex:
+        inits = {"*": {"error": "init probe failed: %s" % ex}}
     out = []
     for f in hcfg["fams"]:
         algo, fam = f["algo"], f["fam"]
@@ -741,7 +812,7 @@ def config(repo, libdir, hcfg=None):
             out.append(ent)
             continue
         try:
-            _family(repo, hcfg, f, ent, sp, fp, subs, fls)
+            _family(repo, hcfg, f, ent, sp, fp, subs, fls, inits.get((algo, fam)) or inits.get("*"))
         except LaneCfgError as ex:
             ent = {"algo": algo, "fam": fam, "bsize": bsize, "immediate": False, "mgr": f["mgr"], "init": f["init"],
                    "error": str(ex), "lanes_hint": f["lanes"]}
@@ -749,11 +820,15 @@ def config(repo, libdir, hcfg=None):
     return out
 
 
-def _family(repo, hcfg, f, ent, sp, fp, subs, fls):
+def _family(repo, hcfg, f, ent, sp, fp, subs, fls, nat=None):
         algo, fam = f["algo"], f["fam"]
         s = parse_submit(repo, sp, subs[0])
         fl = parse_flush(repo, fp, fls[0])
-        ini = _init_facts(repo, algo, f["init"])
+        # init: the executed function decides; the parsed source (when the translator can read it) must agree
+        try:
+            ini = _init_facts(repo, algo, f["init"])
+        except LaneCfgError as ex:
+            ini, ini_err = None, str(ex)
         # submit and flush must tell the same story about the shared layout
         for a, b, what in (("ent_bits", "push_bits", "stack entry width (submit pop / flush push)"),):
             if s[a] != fl[b] or s[a] != s["push_bits"]:
@@ -768,22 +843,36 @@ def _family(repo, hcfg, f, ent, sp, fp, subs, fls):
             ent["note_clear"] = "submit clears %d low bits, flush %d" % (s["clear_bits"], fl["clear_bits"])
         if s["retire_idle"] != fl["retire_idle"]:
             raise LaneCfgError("%s/%s: submit and flush differ on lens[idx] after retiring" % (algo, fam))
-        if ini["nwords"] * 64 < s["stack_bits"] and s["stack_bits"] != 64:
-            raise LaneCfgError("%s/%s: init writes %d words of unused_lanes, the asm shifts through %d bits" % (algo, fam, ini["nwords"], s["stack_bits"]))
         n = fl["nlanes"]
         Wb = s["W"] // 8
-        lens = []
-        for j in range(n):
-            if j in ini["lens_explicit"]:
-                lens.append(ini["lens_explicit"][j])
-            elif ini["lens_loop"] == "j":
-                lens.append(j)
-            elif ini["lens_loop"] is not None:
-                lens.append(ini["lens_loop"])
-            else:
-                lens.append(0)
+        plens = None
+        if ini is not None:
+            plens = []
+            for j in range(n):
+                if j in ini["lens_explicit"]:
+                    plens.append(ini["lens_explicit"][j])
+                elif ini["lens_loop"] == "j":
+                    plens.append(j)
+                elif ini["lens_loop"] is not None:
+                    plens.append(ini["lens_loop"])
+                else:
+                    plens.append(0)
+        if nat is not None and not nat.get("error"):
+            got = _init_native(nat, n, s["stack_bits"], f["init"])
+            if ini is not None and (ini["unused"] & ((1 << s["stack_bits"]) - 1) != got["unused"] or plens != got["lens"]):
+                raise LaneCfgError("%s/%s: %s leaves unused_lanes=0x%x lens=%s but its source reads as unused_lanes=0x%x lens=%s" % (
+                    algo, fam, f["init"], got["unused"], got["lens"], ini["unused"], plens))
+            init_unused, lens = got["unused"], got["lens"]
+            ent["init_from"] = "executed" + ("" if ini is not None else " (source not parsed: %s)" % ini_err)
+        elif ini is not None:
+            if ini["nwords"] * 64 < s["stack_bits"] and s["stack_bits"] != 64:
+                raise LaneCfgError("%s/%s: init writes %d words of unused_lanes, the asm shifts through %d bits" % (algo, fam, ini["nwords"], s["stack_bits"]))
+            init_unused, lens = ini["unused"], plens
+            ent["init_from"] = "parsed (init probe: %s)" % ((nat or {}).get("error") or "not available")
+        else:
+            raise LaneCfgError("%s/%s: initial state unknown: %s; %s" % (algo, fam, (nat or {}).get("error") or "no init probe", ini_err))
         ent.update({"nlanes": n, "stack_bits": s["stack_bits"], "ent_bits": s["ent_bits"], "pop_bits": s["pop_bits"],
-                    "init_unused": ini["unused"], "init_lens": lens, "W": s["W"], "shift": s["shift"],
+                    "init_unused": init_unused, "init_lens": lens, "W": s["W"], "shift": s["shift"],
                     "idx_bits": s["idx_bits"], "clear_bits": max(s["clear_bits"], fl["clear_bits"]) if s["pack"] == "PackHighField" else s["clear_bits"],
                     "pack": s["pack"], "idle_len": fl["idle"][1], "run": s["run"],
                     "submit_scan": s["scan_bytes"] // Wb, "flush_scan": fl["scan_bytes"] // Wb,
